@@ -170,6 +170,18 @@ Definition no_clone : clone_fn := fun h p _ => (h, p).   (* handler.Serve(messag
    [a_pend = Some (dispatch, handler)] until then. *)
 Record agent := mkAgent { a_ptr : nat; a_pend : option (nat * nat) }.
 
+(* The dispatch is UNIFORM IN THE HANDLER'S DYNAMIC TYPE. servemux.go:50 is h.handler.Serve(message.clone())
+   for every registered Handler and serveasync.go:26 is go m.Handler.Serve(message.clone()) for every
+   underlying Handler: a closure (HandlerFunc), a *ServeMux, a *ServeAsync, or any user type — in
+   particular one that embeds ServeMux / ServeAsync (by value or by pointer) and overrides Serve, or
+   holds them in a field. The model therefore identifies a handler by a bare number (hid) and has no
+   notion of handler type at all: every entered handler is an agent holding a clone, and what the
+   handler is shows only in what its agent does next (SMut steps; SMuxBegin / SAsync when a wrapper
+   delegates to what it embeds). An implementation that treats some handler types differently (e.g.
+   hands the un-copied message to handlers it takes for "self-copying") differs from this model on
+   the harness's wrapper handlers (c20.go: c20EmbedMux, c20EmbedMuxPtr, c20EmbedAsync, c20EmbedAsyncPtr,
+   c20FieldMux). *)
+
 (* an activation of ServeMux.Serve: the loop over m.handlers (servemux.go:48) *)
 Record frame := mkFrame { f_disp : nat; f_agent : nat; f_todo : list (list str * nat) }.
 
@@ -192,7 +204,9 @@ Inductive label :=
 | SMuxBegin (a mi : nat)               (* agent a calls muxes[mi].Serve(its message) *)
 | SMuxNext (f extra : nat)             (* activation f: previous handler returned; loop on to the next matching handler, clone, enter it *)
 | SAsync (a hid extra : nat)           (* agent a calls (&ServeAsync{handler hid}).Serve(its message): clone now, go *)
-| SRun (k : nat).                      (* the goroutine of asynchronous invocation k gets to run: handler entered *)
+| SRun (k : nat)                       (* the goroutine of asynchronous invocation k gets to run: handler entered *)
+| SReturn (a : nat).                   (* the handler invocation a returns and keeps the pointer (hands it to a worker,
+                                          stores it): neither ServeMux nor ServeAsync does anything with the copy then *)
 
 Definition open_frame (f : frame) : bool := negb (is_nil (f_todo f)).
 
@@ -280,6 +294,7 @@ Definition step (muxes : list mux) (cl : clone_fn) (st : state) (s : label) : st
                (EvEntry d hid k (content_of h q) :: st_log st) (st_nd st)
       | _ => st
       end
+  | SReturn _ => st
   end.
 
 Definition exec (muxes : list mux) (cl : clone_fn) (sched : list label) (st : state) : state :=
